@@ -243,10 +243,13 @@ def run(ctx):
         pos = [[rng.randint(0, 12) / 2.0 for _ in range(3)] for _ in range(n)]
         cell = np.diag([7.0, 8.0, 9.0])
         a = Atoms(syms, positions=pos, cell=cell, pbc=True)
-        case = dict(vdw_set=vs, scale=scale, default=dflt, syms=syms, pos=pos)
+        custom = {}
+        if t % 2 == 1:
+            custom = {e: rng.choice([0.6, 1.0, 2.4, 3.0]) for e in set(syms) if rng.random() < 0.6}       # tabulated and untabulated elements alike
+        case = dict(vdw_set=vs, scale=scale, default=dflt, syms=syms, pos=pos, custom=custom)
         ctx.evaluations += 1
         try:
-            bonds = Bonds.get(a, vdw_set=vs, vdw_scale=scale, default_vdw=dflt)
+            bonds = Bonds.get(a, vdw_set=vs, vdw_scale=scale, default_vdw=dflt, vdw_custom=custom)
         except IndexError as e:
             tab = vdw_radii[vs]
             if any(a.numbers >= len(tab)):
@@ -259,9 +262,9 @@ def run(ctx):
             continue
         tab = np.array(vdw_radii[vs], float)
         rad = []
-        for z in a.numbers:
+        for z, e_ in zip(a.numbers, syms):
             r = tab[z] * scale if z < len(tab) else float("nan")
-            rad.append(dflt if math.isnan(r) else r)
+            rad.append(custom[e_] if e_ in custom else (dflt if math.isnan(r) else r))
         want = set()
         near = False
         for i, j in itertools.combinations(range(n), 2):
@@ -290,6 +293,44 @@ def run(ctx):
                                "a call with vdw_custom changes the result of a later call without it: %s -> %s" % (before, after), classify)
         except Exception as e:
             ctx.fail_input("table", dict(vdw_set=vs, history="custom then tabulated"), "raised %s: %s" % (type(e).__name__, e), classify)
+    # ---- a custom radius for an element the chosen table has no value for must be used (not replaced by default_vdw)
+    from ase.data import atomic_numbers as _Z, chemical_symbols as _SY
+    for vs in ("csd", "jmol", "ase"):
+        tab = np.array(vdw_radii[vs], float)
+        missing = [_SY[z] for z in range(1, 104) if (z >= len(tab) or math.isnan(tab[z]))][:: 7][:4]
+        for el in missing:
+            for rc, dist, want_bond in ((0.4, 1.5, False), (3.0, 2.2, True)):
+                a = Atoms([el, "O"], positions=[[0, 0, 0], [dist, 0, 0]], cell=np.diag([12.0, 12.0, 12.0]), pbc=True)
+                ctx.evaluations += 1
+                try:
+                    rO = tab[8]
+                    nb = len(Bonds.get(a, vdw_set=vs, default_vdw=2.0, vdw_custom={el: rc}))
+                    expect = 1 if (rc + rO) / 2 >= dist else 0
+                    if nb != expect:
+                        ctx.fail_input("table", dict(vdw_set=vs, syms=[el, "O"], custom={el: rc}, dist=dist),
+                                       "%s (no radius in the %s table) with custom radius %.1f at %.1f A from O: %d bond(s), the half-sum rule with the custom radius gives %d" % (el, vs, rc, dist, nb, expect), classify)
+                except Exception as e:
+                    ctx.fail_input("table", dict(vdw_set=vs, syms=[el, "O"], custom={el: rc}), "raised %s: %s" % (type(e).__name__, e), classify)
+    # ---- histories: Bonds / Molecules evaluated first with OTHER radii (or before an atom is moved), then Molecules: the components of the contact graph of
+    #      the requested radii and the current geometry
+    for t in range(8 if quick else 80):
+        a = Atoms("CCHHOO", positions=[[0, 0, 0], [1.5, 0, 0], [3.0, 0, 0], [4.5, 0, 0], [6.2, 0, 0], [8.0, 0, 0]], cell=np.diag([14.0, 9.0, 9.0]), pbc=True)
+        first = rng.choice([dict(vdw_scale=0.5), dict(vdw_custom={"C": 0.2, "H": 0.2, "O": 0.2}), dict(vdw_set="jmol", vdw_scale=0.6)])
+        second = rng.choice([dict(vdw_scale=1.3), dict(vdw_custom={"C": 2.2, "H": 2.2, "O": 2.2}), dict(vdw_set="csd", vdw_scale=1.2)])
+        ctx.evaluations += 1
+        try:
+            rng.choice([Bonds, Molecules]).get(a, **first)
+            if t % 3 == 2:
+                pos_ = a.get_positions()
+                pos_[5] = [9.9, 3.0, 3.0]
+                a.set_positions(pos_)
+            got = sorted(sorted(int(i) for i in m.indices) for m in Molecules.get(a, **second))
+            fresh = Atoms(a.get_chemical_symbols(), positions=a.get_positions(), cell=a.get_cell(), pbc=True)
+            want = sorted(sorted(int(i) for i in m.indices) for m in Molecules.get(fresh, **second))
+            if got != want:
+                ctx.fail_input("table", dict(history="%s then Molecules(%s)" % (first, second)), "after an earlier call with %s, Molecules(%s) gives %s; a fresh structure gives %s" % (first, second, got, want), classify)
+        except Exception as e:
+            ctx.fail_input("table", dict(history="%s then Molecules(%s)" % (first, second)), "raised %s: %s" % (type(e).__name__, e), classify)
     # single atom
     try:
         one = Atoms("H", positions=[[0, 0, 0]], cell=[5, 5, 5], pbc=True)
